@@ -41,4 +41,18 @@ CLAIMS['C19'] = {
   'note': 'Known findings (48, ?gstrf/?gsitrf/?LUMemInit out-of-space exits) are listed in known_findings.txt; two leak classes were '
           'repaired by fix: commits. Trusted: ownership contract for caller-visible objects, GlobalLU_t-as-view, clang parser, own CFG.',
 }
+CLAIMS['C01'] = {
+  'level': 'other',
+  'technique': 'static analysis: flag-partitioned conditional constant propagation over the CFG with an event oracle (R3), permutation-role classification (R7), sibling agreement (R9)',
+  'design_ref': 'DESIGN.md 4 R3 R7 R9, 5 C01',
+  'text': 'Decides the dispatch glue of the simple driver and of the triangular-solve routine for every valuation of storage orientation, '
+          'ColPerm, factorization outcome and Trans, in all four arithmetic types: row storage is factored as the transposed column view and '
+          'solved with TRANS; ordering, post-ordering, factorization and solve are called in order with the documented arguments; the solve '
+          'happens iff info == 0 and B is untouched otherwise; ?gstrs scatters/gathers with perm_r/perm_c in the roles implied by '
+          'A = Pr^T L U Pc^T for each Trans and runs L before U (U^T before L^T) with the documented kernel flags. Each clause is a necessary '
+          'condition of the residual bound (a tree violating it returns a wrong X for any unsymmetric matrix / non-identity permutation). '
+          'The residual bound itself and the numerical kernels are not decided (only their s=d, c=z agreement is).',
+  'note': 'Oracle written from the routine headers and the algebra A = Pr^T L U Pc^T (slucheck/props/c01.py). Representative values stand '
+          'for the classes of info and nrhs. No-alias contract.',
+}
 NOT_APPLICABLE = {}
